@@ -788,6 +788,69 @@ fn decode_cases(run: &mut Run, seed: u64, out: &mut Out, frames: &[(String, Stri
     }
 }
 
+/// Two concatenated reference frames through the slice-to-slice call, the first call ending at every position of the last
+/// 6 bytes of frame 1 (inside its checksum when it has one): the frame boundary must be found in every build — the caller
+/// advances by the reported count and then starts frame 2 with `reset` on the rest.
+fn from_to_boundary_cases(run: &mut Run, dir: &str, out: &mut Out) {
+    let mut names: Vec<String> = std::fs::read_dir(dir).map(|d| d.filter_map(|e| e.ok()).map(|e| e.file_name().to_string_lossy().to_string()).collect()).unwrap_or_default();
+    names.sort();
+    let stems: Vec<String> = names.iter().filter_map(|n| n.strip_suffix(".zst").map(|s| s.to_string())).filter(|s| !s.starts_with("dict_")).collect();
+    for pair in stems.windows(2).take(4) {
+        let f1 = std::fs::read(format!("{}/{}.zst", dir, pair[0])).unwrap_or_default();
+        let f2 = std::fs::read(format!("{}/{}.zst", dir, pair[1])).unwrap_or_default();
+        let e1 = std::fs::read(format!("{}/{}.raw", dir, pair[0])).unwrap_or_default();
+        let e2 = std::fs::read(format!("{}/{}.raw", dir, pair[1])).unwrap_or_default();
+        if f1.len() < 8 || e1.len() > 400_000 || e2.len() > 400_000 {
+            continue;
+        }
+        let mut both = f1.clone();
+        both.extend_from_slice(&f2);
+        for back in 0..=6usize {
+            let cut = f1.len() - back;
+            let a = guarded(|| {
+                let mut dec = FrameDecoder::new();
+                let mut outbuf = vec![0u8; e1.len() + 64];
+                let mut pos = 0usize;
+                let mut got: Vec<u8> = vec![];
+                // first call sees the input up to `cut`, the following calls everything that is left
+                let mut limit = cut;
+                let mut rounds = 0;
+                while rounds < 200 {
+                    rounds += 1;
+                    let (r, w) = match dec.decode_from_to(&both[pos..limit.max(pos)], &mut outbuf) {
+                        Ok(x) => x,
+                        Err(e) => return format!("err from_to {}", canon_dbg(&format!("{:?}", e))),
+                    };
+                    pos += r;
+                    got.extend_from_slice(&outbuf[..w]);
+                    limit = both.len();
+                    if dec.is_finished() && dec.can_collect() == 0 && r == 0 && w == 0 {
+                        break;
+                    }
+                }
+                // frame 2 from where frame 1 ended, according to the counts the calls reported
+                let mut src = &both[pos.min(both.len())..];
+                let second = match dec.reset(&mut src) {
+                    Err(e) => format!("err reset {}", canon_dbg(&format!("{:?}", e))),
+                    Ok(()) => match dec.decode_blocks(&mut src, BlockDecodingStrategy::All) {
+                        Err(e) => format!("err decode {}", canon_dbg(&format!("{:?}", e))),
+                        Ok(_) => format!("ok {}", digest(&dec.collect().unwrap_or_default())),
+                    },
+                };
+                format!("ok {} consumed={} second={}", digest(&got), pos, second)
+            })
+            .unwrap_or_else(|_| "fault".into());
+            run.oracle_checks += 1;
+            let want = format!("ok {} consumed={} second=ok {}", digest(&e1), f1.len(), digest(&e2));
+            if a != want {
+                run.fail("C18", "from_to_frame_boundary", format!("variant {}: frames {} + {} through decode_from_to with the first call ending {} bytes before the end of frame 1: `{}`, expected `{}`", variant(), pair[0], pair[1], back, a, want), format!("# frames {} + {} concatenated, first decode_from_to call sees {} of {} bytes of frame 1", pair[0], pair[1], cut, f1.len()));
+            }
+            out.digests.push(format!("all fromto:{}+{}:-{} {}", pair[0], pair[1], back, a));
+            run.stat("codec:from_to_boundary_cases", 1);
+        }
+    }
+}
+
 /// ONE decoder (with the reference dictionary registered, when there is one) decoding all reference frames one after
 /// the other, dictionary frames in between and at the end: per-frame state that a build resets only under one of the
 /// features shows up as a digest line that differs between builds (scope `all`: identical in all four).
@@ -900,6 +963,7 @@ pub fn run(opts: &Opts) -> Run {
             }
         }
         reuse_cases(&mut run, &dir, &mut out);
+        from_to_boundary_cases(&mut run, &dir, &mut out);
         run.stat("codec:reference_frames", frames.iter().filter(|f| f.0 == "all").count() as u64);
     }
     decode_cases(&mut run, opts.seed, &mut out, &frames, if opts.thorough { 28 } else { 8 });
